@@ -657,6 +657,15 @@ func osFileCloseCallers(fns []*ssa.Function) []string {
 	return out
 }
 
+func pos2(l *tx.Loaded, p token.Pos) string {
+	q := l.Prog.Fset.Position(p)
+	f := q.Filename
+	if i := strings.Index(f, "/repo/"); i >= 0 {
+		f = f[i+6:]
+	}
+	return fmt.Sprintf("%s:%d", f, q.Line)
+}
+
 func luaSharedNames() []string {
 	out := []string{}
 	for g := range luaShared {
@@ -835,6 +844,78 @@ func main() {
 			}
 			rows[n] = &row{Var: n, Type: g.Type().(*types.Pointer).Elem().String(), Pos: fmt.Sprintf("%s:%d", f, q.Line)}
 			names = append(names, n)
+		}
+	}
+	// Field writes on the pointee type of a package-level pointer variable.  The objects such variables point to
+	// (e.g. the *GoFunction values next, ipairsiterator, searchlua ...) reach every runtime through Lua values, a flow
+	// the summaries cannot follow, so the rule is by TYPE: any store to field F of struct T, where some package-level
+	// variable has type *T, outside init and not into an object allocated in the same function (constructors), is a
+	// writer of the pseudo-variable "T#F".
+	pointee := map[string][]string{} // T -> package-level variables of type *T
+	for _, sp := range l.Prog.AllPackages() {
+		if !strings.HasPrefix(sp.Pkg.Path(), tx.Module) {
+			continue
+		}
+		for _, m := range sp.Members {
+			if g, ok := m.(*ssa.Global); ok {
+				if pt, ok := g.Type().(*types.Pointer).Elem().(*types.Pointer); ok {
+					if n, ok := pt.Elem().(*types.Named); ok && n.Obj().Pkg() != nil && strings.HasPrefix(n.Obj().Pkg().Path(), tx.Module) {
+						if _, isStruct := n.Underlying().(*types.Struct); isStruct {
+							pointee[n.String()] = append(pointee[n.String()], gname(g))
+						}
+					}
+				}
+			}
+		}
+	}
+	for _, fn := range fns {
+		if !tx.InModule(fn) || isInit(fn) || len(pointee) == 0 {
+			continue
+		}
+		for _, b := range fn.Blocks {
+			for _, ins := range b.Instrs {
+				st, ok := ins.(*ssa.Store)
+				if !ok {
+					continue
+				}
+				fa, ok := st.Addr.(*ssa.FieldAddr)
+				if !ok {
+					continue
+				}
+				pt, ok := fa.X.Type().Underlying().(*types.Pointer)
+				if !ok {
+					continue
+				}
+				n, ok := pt.Elem().(*types.Named)
+				if !ok {
+					continue
+				}
+				vars, shared := pointee[n.String()]
+				if !shared {
+					continue
+				}
+				if _, fresh := fa.X.(*ssa.Alloc); fresh {
+					continue // a constructor filling the object it has just allocated
+				}
+				fname := n.Underlying().(*types.Struct).Field(fa.Field).Name()
+				short := strings.TrimPrefix(strings.TrimPrefix(n.String(), tx.Module), "/")
+				v := short + "#" + fname
+				r := rows[v]
+				if r == nil {
+					sort.Strings(vars)
+					r = &row{Var: v, Type: "field of the struct package-level pointers point to: " + strings.Join(vars, ", "), Pos: pos2(l, st.Pos())}
+					rows[v] = r
+					names = append(names, v)
+				}
+				dup := false
+				for _, w := range r.Writers {
+					dup = dup || w == fn.String()
+				}
+				if !dup {
+					r.Writers = append(r.Writers, fn.String())
+					r.How = append(r.How, "store to a field of an object that package-level pointers share between runtimes")
+				}
+			}
 		}
 	}
 	for _, fn := range fns {
